@@ -37,13 +37,13 @@ def tlaps_stage(ev, tier, seed):
 
 
 NT = "non-trivial = the specification's nodelist is non-empty; distinct = distinct REPLAY lines"
-PROPS["C01"] = make_prop("C01", [ES("C01", "C01", "nodes"), ES("C01", "C11", "nodes"), ES("C01", "C05", "nodes"), ES("C01", "C01D", "nodes"), ES("C01", "C03", "nodes"), TE("C01", {"nodes", "outcome", "seg"})],
+PROPS["C01"] = make_prop("C01", [ES("C01", "C01", "nodes"), ES("C01", "C11", "nodes"), ES("C01", "C05", "nodes"), ES("C01", "C01D", "nodes"), ES("C01", "C03", "nodes"), GS("C01", "C13", "nodes"), TE("C01", {"nodes", "outcome", "seg"})],
     "every (document, query) pair of universe C01 (strided by seed) driven through the evaluation machine; " + NT, COMMON_ASSUME)
 PROPS["C02"] = make_prop("C02", [ES("C02", "C01", "order"), ES("C02", "C11", "order"), ES("C02", "C15", "order"), ES("C02", "C01D", "order"), TE("C02", {"order"})],
     "as C01 but the result SEQUENCE is compared; " + NT, COMMON_ASSUME)
 PROPS["C03"] = make_prop("C03", [ES("C03", "C03", "paths"), ES("C03", "C11", "paths", mode="paths"), ES("C03", "C01", "paths", mode="paths"), TE("C03", {"paths"})],
     "member names over a hostile alphabet reached through every route kind; each result's path compared with the spec's NormalizedPath of the node found by address, equal-paths<=>same-node, and re-query of the reported path; " + NT, COMMON_ASSUME)
-PROPS["C04"] = make_prop("C04", [ES("C04", "C04", "nodes"), TE("C04", {"cmp"})],
+PROPS["C04"] = make_prop("C04", [ES("C04", "C04", "nodes"), ES("C04", "C15", "nodes"), TE("C04", {"cmp"})],
     "all pairs of operand values x 6 operators x operand forms embedded as $[?lhs op rhs]; the child is selected iff the spec's Compare is true; " + NT, COMMON_ASSUME)
 PROPS["C05"] = make_prop("C05", [ES("C05", "C05", "order")],
     "logical expressions of depth <= 3 over test/comparison/nested-filter atoms applied to arrays and objects of children covering presence/absence and falsy values; selected children compared in order; " + NT, COMMON_ASSUME)
@@ -63,7 +63,7 @@ PROPS["C15"] = make_prop("C15", [ES("C15", "C15", "nodes,order,paths", mode="pat
     COMMON_ASSUME + ["J (harness/src/j.rs) is a faithful implementation of the trait as documented"])
 
 GR = "distinct = distinct sentences; non-trivial = the recogniser gives a verdict (valid/invalid) rather than unscoped"
-PROPS["C06"] = make_prop("C06", [GS("C06", "C06", "accept"), TE("C06", {"outcome"})],
+PROPS["C06"] = make_prop("C06", [GS("C06", "C06", "accept"), GS("C06", "C07", "accept"), TE("C06", {"outcome"})],
     "every spelling (blank space at every S, both quote styles, every escape form, shorthand/bracket notation, redundant parentheses, number spellings) within a variation budget of the abstract queries of GrammarUniverse, derived by the grammar machine and judged valid by the recogniser, must be accepted by parse_json_path and by JsonPath::query; " + GR,
     COMMON_ASSUME + ["RFC 9535 ABNF transcribed twice (generator Grammar.tla, recogniser JPParse.tla) and cross-checked by TLC"])
 PROPS["C07"] = make_prop("C07", [GS("C07", "C07", "reject,accept"), lambda ev, tier, seed: short_strings_stage(ev, "C07", tier, seed), lambda ev, tier, seed: api_cases_stage(ev, "C07", tier, seed), TE("C07", {"outcome"})],
@@ -73,10 +73,10 @@ PROPS["C13"] = make_prop("C13", [GS("C13", "C13", "order,accept"), TE("C13", {"a
     "all spellings within the variation budget of each abstract query, evaluated on three probe documents: each must return the specification's nodelist for the ABSTRACT query in order (so all spellings agree); spec-side invariant SpellingSame; " + GR,
     COMMON_ASSUME)
 
-PROPS["C09"] = make_prop("C09", [lambda ev, tier, seed: refstore_stage(ev, "C09", tier, seed), ES("C09", "C01D", "feedback"), ES("C09", "C03", "feedback")],
+PROPS["C09"] = make_prop("C09", [lambda ev, tier, seed: refstore_stage(ev, "C09", tier, seed), ES("C09", "C09D", "feedback", cfg="Evaluator_light"), ES("C09", "C03", "feedback")],
     "histories of up to 2 (thorough 3) reads/writes through the Normalized Paths of EVERY location of the initial document and of locations that do not exist (missing name, index = len, name step on an array, index step on an object); member names include / ~ ~1 0 1 '' and (thorough) ' \\ \" LF; after every step the node address / the whole document is compared with the specification; non-trivial = the history touches an existing location",
     COMMON_ASSUME)
 
-PROPS["C08"] = make_prop("C08", [lambda ev, tier, seed: api_stage(ev, "C08", tier, seed), ES("C08", "C03", "prog"), ES("C08", "C01", "prog")],
+PROPS["C08"] = make_prop("C08", [lambda ev, tier, seed: api_stage(ev, "C08", tier, seed), ES("C08", "C03", "prog"), ES("C08", "C01", "prog"), ES("C08", "C10", "prog"), ES("C08", "C05", "prog")],
     "every call of parse_json_path / query / query_with_path / query_only_path / js_path_process on (a) the Api machine's extreme inputs (9 kinds of nesting x depths 8..512, thorough 4096; integers and literals at +-(2^53-1), 2^53, the i64 limits, huge exponents; truncated strings), (b) a sample of the grammar machine's valid / near-miss / ill-typed sentences, (c) seeded random and mutated strings, executed in isolated worker processes; the recorded call/return trace must be a behaviour of Api.tla (no panic, no crash, no timeout, Err iff the string is invalid); distinct = cases",
     COMMON_ASSUME + ["a hang is observed as 60 s without progress of the worker", "debug build with overflow checks on"])
